@@ -4,7 +4,7 @@ import os
 from . import vlib
 
 DFOLS_DEFAULTS = dict(MaxFun=5, NPT=2, VMax=2, Small="NoSmall", MaxSamples=1, WithInf=False, UseRestarts=False, SoftRestarts=True,
-                      MaxUnsucc=2, NumGeom=1, MoveXk=True, UseOldRk=True, IncNpt=0, RhoLevels=2, RhoendScaleDrop=0, MaxRuns=3, NdirsInit=0, RhoDropAny=False, NoisyObjective=False, WithHuge=False, NewDirs=0, WithNoise=False, RegSteps=0, WithAuto=True, WithFalseSuccess=True,
+                      MaxUnsucc=2, NumGeom=1, MoveXk=True, UseOldRk=True, IncNpt=0, RhoLevels=2, RhoendScaleDrop=0, MaxRuns=3, NdirsInit=0, RhoDropAny=False, NoisyObjective=False, WithHuge=False, NewDirs=0, GrowGeom=False, RegInc=0, WithNoise=False, RegSteps=0, WithAuto=True, WithFalseSuccess=True,
                       DefSoftSwap=False, DefTrialLost=False, DefX0EvalNum=False, DefHardEvalNum=False, DefDoubleNruns=False,
                       DefCtrlRhoend=False, DefSuccessNonFinite=False, DefAutoFlagLeak=False, DefNaNCompare=False, DefSwapNs=False, DefStaleFactor=False)
 DFOLS_INVARIANTS = ["TypeOK", "C02_Budget", "C02_Counters", "C02_NfIsSum", "C02_Samples", "C03_EveryIter", "C03_Returned", "C04_BestKept",
